@@ -273,6 +273,58 @@ def load_known_findings():
 
 
 # --------------------------------------------------------------------------
+# breadcrumbs and verdict files (crash / hang survival, see run.py)
+
+def _state_dir():
+    d = os.path.join(OUT, ".scratch", "state")
+    os.makedirs(d, exist_ok=True)
+    return d
+
+
+def crumb(pid, obj):
+    """record the input about to be handed to the implementation"""
+    with open(os.path.join(_state_dir(), "%s.crumb.json" % pid), "w") as f:
+        json.dump(obj, f, default=str)
+
+
+def read_crumb(pid):
+    p = os.path.join(_state_dir(), "%s.crumb.json" % pid)
+    if os.path.exists(p):
+        try:
+            return json.load(open(p))
+        except Exception:
+            return None
+    return None
+
+
+def clear_crumb(pid):
+    p = os.path.join(_state_dir(), "%s.crumb.json" % pid)
+    if os.path.exists(p):
+        os.remove(p)
+
+
+def write_verdict(pid, rc):
+    with open(os.path.join(_state_dir(), "%s.verdict" % pid), "w") as f:
+        f.write(str(rc))
+
+
+def read_verdict(pid):
+    p = os.path.join(_state_dir(), "%s.verdict" % pid)
+    if os.path.exists(p):
+        try:
+            return int(open(p).read().strip())
+        except Exception:
+            return None
+    return None
+
+
+def clear_verdict(pid):
+    p = os.path.join(_state_dir(), "%s.verdict" % pid)
+    if os.path.exists(p):
+        os.remove(p)
+
+
+# --------------------------------------------------------------------------
 # check context / verdict protocol
 
 class Ctx:
@@ -340,6 +392,9 @@ class Ctx:
         d = dict(name=name)
         d.update(kw)
         self.streams.append(d)
+
+    def crumb(self, obj):
+        crumb(self.pid, obj)
 
     # ---- violations
     def violation(self, key, what, replay, found_input=True):
@@ -413,6 +468,7 @@ class Ctx:
             sentinels_changed=self.sentinels_changed,
             notes=self.notes,
             known_findings_reported=sorted(seen_known),
+            explanation=self.notes.get("explanation", "see streams / notes"),
         )
         ev = dict(property_id=self.pid, tier=self.tier, seed=self.seed, level=self.level, coverage=cov,
                   assumptions=self.assumptions, wall_s=round(wall, 2), violations=n_viol)
